@@ -1,6 +1,6 @@
 """Runs the REAL dadi projection code (Numerics._cached_projection, Spectrum.project, _project_one_axis,
 fold/unfold) on the generated cases.  JSON on stdin, JSON on the last stdout line."""
-import sys, json, warnings, logging
+import sys, json, warnings, logging, pickle, copy as _copy
 warnings.filterwarnings('ignore')
 import numpy as np
 import dadi
@@ -18,7 +18,9 @@ def bl(a):
 
 def dump(fs):
     return {'shape': [int(s) for s in fs.shape], 'data': fl(fs.data), 'mask': bl(np.ma.getmaskarray(fs)),
-            'folded': bool(fs.folded), 'pop_ids': fs.pop_ids, 'extrap_x': fs.extrap_x,
+            'folded': bool(fs.folded), 'folded_type': type(fs.folded).__module__ + '.' + type(fs.folded).__name__,
+            'pop_ids': None if fs.pop_ids is None else [str(p) for p in fs.pop_ids],
+            'extrap_x': None if fs.extrap_x is None else float(fs.extrap_x),
             'is_spectrum': isinstance(fs, dadi.Spectrum)}
 
 
@@ -37,11 +39,17 @@ def prelude(cases):
     out = []
     for c in cases:
         cd = {}
+        k = c.get('types', 'canon')
+        # argument types of _from_count_dict (same logical dictionary and projections)
+        conv = {'keys_i64': np.int64, 'keys_i32': np.int32}.get(k, int)
+        cconv = {'counts_float': float, 'counts_np_i64': np.int64, 'counts_np_f64': np.float64}.get(k, lambda x: x)
         for called, derived, pol, cnt in c['entries']:
-            cd[(tuple(called), tuple(derived), bool(pol))] = cnt
+            cd[(tuple(conv(x) for x in called), tuple(conv(x) for x in derived), bool(pol))] = cconv(cnt)
+        proj = NS[k](c['projections']) if k in NS else c['projections']
         try:
-            fs = dadi.Spectrum._from_count_dict(cd, c['projections'], polarized=True)
-            out.append({'total': float(fs.data.sum())})
+            fs = dadi.Spectrum._from_count_dict(cd, proj, polarized=True)
+            out.append({'total': float(fs.data.sum()), 'shape': [int(s_) for s_ in fs.shape], 'data': fl(fs.data),
+                        'mask': bl(np.ma.getmaskarray(fs)), 'folded': bool(fs.folded)})
         except Exception as e:      # noqa
             out.append({'error': type(e).__name__ + ': ' + str(e)[:160]})
     return out
@@ -65,6 +73,23 @@ def weights(triples):
     return out1, out2
 
 
+def typed_weights(items):
+    """_cached_projection with the arguments in `pos` given in integer type `kind` (first visit of each key: the
+    generator keeps these keys away from every other stream), then again with Python ints (cache hit)"""
+    out = []
+    for it in items:
+        args = [int(x) for x in it['triple']]
+        for p in it['pos']:
+            args[p] = NS[it['kind']]([args[p]])[0]
+        try:
+            first = fl(Numerics._cached_projection(*args))
+            again = fl(Numerics._cached_projection(*[int(x) for x in it['triple']]))
+            out.append({'first': first, 'again': again})
+        except Exception as e:      # noqa
+            out.append({'error': type(e).__name__ + ': ' + str(e)[:160]})
+    return out
+
+
 def build(c):
     shape = c['shape']
     data = np.array(c['data'], dtype=float).reshape(shape)
@@ -78,12 +103,165 @@ def build(c):
     return fs
 
 
+# ----------------------------------------------------------------------------------------------
+# ARGUMENT / ATTRIBUTE TYPES.  A case with c['types'] = {axis: kind} is the SAME logical spectrum and the same logical call
+# as the canonical form (float64 C-contiguous data, bool mask array, folded flag a Python bool, pop_ids a list, sample sizes
+# a list of Python ints), presented to the library with other types the unchanged library accepts.  The kinds are listed
+# (and reviewed) in harness/props/c08.py TYPE_KINDS; an unknown kind is an error here (fail-closed).
+
+def _strided(a, fill):
+    big = np.full([2 * s for s in a.shape], fill, dtype=a.dtype)
+    sl = (slice(None, None, 2),) * a.ndim
+    big[sl] = a
+    return big[sl]
+
+
+def _negstride(a):
+    rev = (slice(None, None, -1),) * a.ndim
+    return np.ascontiguousarray(a[rev])[rev]
+
+
+def _readonly(a):
+    a = np.array(a); a.setflags(write=False); return a
+
+
+FLAG = {
+    'bool': lambda v: bool(v),
+    'np_bool': lambda v: np.bool_(v),
+    'np_all': lambda v: np.all(np.array([bool(v), bool(v)])),       # what numpy.all(mask[...]) hands back
+    'int': lambda v: int(v),
+    'np_int': lambda v: np.int64(v),
+    'arr0d': lambda v: np.array(bool(v)),                           # a flag read back from an .npz file
+    'float': lambda v: float(v),
+}
+DATA = {
+    'f64': lambda D: np.array(D, dtype=float),
+    'i64': lambda D: np.array(D, dtype=np.int64),
+    'i32': lambda D: np.array(D, dtype=np.int32),
+    'f32': lambda D: np.array(D, dtype=np.float32),
+    'longdouble': lambda D: np.array(D, dtype=np.longdouble),
+    'bigendian': lambda D: np.array(D, dtype='>f8'),
+    'list': lambda D: np.array(D, dtype=float).tolist(),
+    'intlist': lambda D: np.array(D, dtype=np.int64).tolist(),
+    'ma_nomask': lambda D: np.ma.masked_array(np.array(D, dtype=float)),
+    'fortran': lambda D: np.asfortranarray(np.array(D, dtype=float)),
+    'transposed': lambda D: np.ascontiguousarray(np.array(D, dtype=float).T).T,
+    'strided': lambda D: _strided(np.array(D, dtype=float), 777.0),
+    'negstride': lambda D: _negstride(np.array(D, dtype=float)),
+    'readonly': lambda D: _readonly(np.array(D, dtype=float)),
+    # 'ma_masked' (the mask travels inside the data, no mask argument) and 'spectrum' (the canonical Spectrum itself as
+    # data: flag, labels come from its attributes) are handled in build_variant
+}
+MASK = {
+    'bool': lambda M: np.array(M, dtype=bool),
+    'int': lambda M: np.array(M, dtype=np.int64),
+    'u8': lambda M: np.array(M, dtype=np.uint8),
+    'list': lambda M: np.array(M, dtype=bool).tolist(),
+    'intlist': lambda M: np.array(M, dtype=np.int64).tolist(),
+    'fortran': lambda M: np.asfortranarray(np.array(M, dtype=bool)),
+    'strided': lambda M: _strided(np.array(M, dtype=bool), True),
+    'negstride': lambda M: _negstride(np.array(M, dtype=bool)),
+    'readonly': lambda M: _readonly(np.array(M, dtype=bool)),
+    # 'nomask' (numpy.ma.nomask as the mask ARGUMENT of the constructor; only for spectra without masked entries): build_variant
+}
+NS = {
+    'list': lambda ns: [int(n) for n in ns],
+    'tuple': lambda ns: tuple(int(n) for n in ns),
+    'arr_i64': lambda ns: np.array(ns, dtype=np.int64),
+    'arr_i32': lambda ns: np.array(ns, dtype=np.int32),
+    'list_i64': lambda ns: [np.int64(n) for n in ns],
+    'list_i32': lambda ns: [np.int32(n) for n in ns],
+    'tuple_i64': lambda ns: tuple(np.int64(n) for n in ns),
+    'list_intp': lambda ns: [np.intp(n) for n in ns],
+    'mixed': lambda ns: [np.int64(n) if k % 2 == 0 else int(n) for k, n in enumerate(ns)],
+    'sample_sizes': lambda ns: np.asarray([n + 1 for n in ns]) - 1,     # as computed from another spectrum's shape
+}
+IDS = {'list': list, 'tuple': tuple}
+XX = {'float': float, 'np_f64': np.float64, 'np_f32': np.float32}
+POST = {
+    'none': lambda fs: fs,
+    'copy': lambda fs: fs.copy(),
+    'deepcopy': lambda fs: _copy.deepcopy(fs),
+    'pickle': lambda fs: pickle.loads(pickle.dumps(fs)),
+    'mul1': lambda fs: fs * 1.0,
+    'add0': lambda fs: fs + 0,
+    'slice': lambda fs: fs[(slice(None),) * fs.ndim],
+    'view': lambda fs: fs.view(),
+    'rewrap': lambda fs: dadi.Spectrum(fs, mask_corners=False, extrap_x=fs.extrap_x),      # (the constructor does not inherit extrap_x)
+    'astype': lambda fs: fs.astype(float),
+    'ma_array': lambda fs: np.ma.array(fs, copy=True, subok=True),
+}
+
+
+def build_variant(c, fs):
+    """the canonical spectrum fs presented with the types c['types'] asks for"""
+    t = c['types']
+    D = np.array(fs.data, dtype=float); M = np.array(np.ma.getmaskarray(fs), dtype=bool)
+    folded = bool(fs.folded)
+    dk, mk = t.get('data', 'f64'), t.get('mask', 'bool')
+    flagkind, via = t.get('flag'), t.get('via', 'ctor')
+    ids = fs.pop_ids if fs.pop_ids is None else IDS[t.get('ids', 'list')](list(fs.pop_ids))
+    xx = fs.extrap_x if fs.extrap_x is None else XX[t.get('xx', 'float')](fs.extrap_x)
+    if dk == 'spectrum':
+        g = dadi.Spectrum(fs, mask_corners=False, extrap_x=xx)       # (the constructor does not inherit extrap_x)
+    else:
+        if dk == 'ma_masked':
+            data, mask = np.ma.masked_array(D.copy(), mask=M.copy()), np.ma.nomask
+        else:
+            data = DATA[dk](D)
+            if not np.array_equal(np.asarray(data, dtype=float), D):
+                raise AssertionError('generator: data kind %s does not represent the data exactly' % dk)
+            if mk == 'nomask':
+                if M.any():
+                    raise AssertionError('generator: mask kind nomask on a spectrum with masked entries')
+                mask = np.ma.nomask
+            else:
+                mask = MASK[mk](M)
+                if not np.array_equal(np.asarray(mask, dtype=bool), M):
+                    raise AssertionError('generator: mask kind %s does not represent the mask exactly' % mk)
+        if flagkind == 'none':
+            if folded:
+                raise AssertionError('generator: data_folded=None on a folded spectrum')
+            df = None
+        elif flagkind is not None and via == 'ctor':
+            df = FLAG[flagkind](folded)
+        else:
+            df = folded
+        g = dadi.Spectrum(data, mask=mask, mask_corners=False, data_folded=df, pop_ids=ids, extrap_x=xx)
+        if flagkind not in (None, 'none') and via == 'attr':
+            g.folded = FLAG[flagkind](folded)
+    return POST[t.get('post', 'none')](g)
+
+
+def _axis_like(n, ax):
+    """the axis argument of _project_one_axis in the integer type of the size argument"""
+    return type(n)(ax) if isinstance(n, np.integer) else ax
+
+
 def spectrum(c):
     rec = {'id': c['id']}
     fs = build(c)
-    rec['input'] = dump(fs)
     ns = c['ns']
+    if c.get('types'):
+        canon = fs
+        try:
+            fs = build_variant(c, canon)
+        except AssertionError as e:
+            rec['variant_error'] = str(e)
+            fs = canon
+        except Exception as e:          # noqa
+            rec['build_error'] = type(e).__name__ + ': ' + str(e)[:160]
+            fs = canon
+        nk = c['types'].get('ns', 'list')
+        ns = NS[nk](c['ns'])
+        if c.get('mid') is not None:
+            c = dict(c); c['mid'] = NS[nk](c['mid'])
+    rec['input'] = dump(fs)
     rec['out'] = guarded(lambda: fs.project(ns))
+    if c.get('types'):
+        # the canonical form AFTER the variant (whichever runs first fills the module-level weight cache)
+        rec['canon_input'] = dump(canon)
+        rec['canon_out'] = guarded(lambda: canon.project([int(n) for n in c['ns']]))
     if c.get('expect_error'):
         ax = c.get('bad_axis', 0)
         rec['one_axis'] = guarded(lambda: (fs.unfold() if fs.folded else fs)._project_one_axis(ns[ax] if ax < len(ns) else 0, ax))
@@ -95,7 +273,7 @@ def spectrum(c):
         cur = fs.unfold() if fs.folded else fs.copy()
         for ax in c['perm']:
             if ns[ax] != fs.sample_sizes[ax] or c.get('noskip'):
-                cur = cur._project_one_axis(ns[ax], ax)
+                cur = cur._project_one_axis(ns[ax], _axis_like(ns[ax], ax))
         return cur.fold() if fs.folded else cur
     rec['in_order'] = guarded(in_order)
     if fs.folded:
@@ -142,6 +320,7 @@ def main():
         except Exception as e:      # noqa
             bw.append({'error': type(e).__name__ + ': ' + str(e)[:160]})
     res['bigweights'] = bw
+    res['typed_weights'] = typed_weights(payload.get('typed_weights', []))
     res['spectra'] = [spectrum(c) for c in payload.get('spectra', [])]
     res['neutral'] = neutral(payload.get('neutral', []))
     print(json.dumps(res))
